@@ -27,7 +27,7 @@ import (
 	"strings"
 	"time"
 
-	"github.com/pquerna/cachecontrol"
+	"github.com/pquerna/cachecontrol/cacheobject"
 
 	"github.com/dadrus/heimdall/internal/cache"
 	"github.com/dadrus/heimdall/internal/x/hashx"
@@ -73,7 +73,8 @@ func (rt *RoundTripper) cachedResponse(req *http.Request) (*http.Response, error
 }
 
 func (rt *RoundTripper) cacheResponse(req *http.Request, resp *http.Response) {
-	reasons, expires, err := cachecontrol.CachableResponse(req, resp, cachecontrol.Options{PrivateCache: true})
+	reasons, expires, _, obj, err := cacheobject.UsingRequestResponseWithObject(
+		req, resp.StatusCode, resp.Header, true)
 	if err != nil || len(reasons) != 0 {
 		return
 	}
@@ -83,8 +84,11 @@ func (rt *RoundTripper) cacheResponse(req *http.Request, resp *http.Response) {
 		return
 	}
 
-	if expires.IsZero() {
-		// an Expires header, which is not a valid date, means "already expired" (RFC 7234, section 5.3)
+	if obj.RespDirectives.MaxAge == -1 && obj.RespExpiresHeader.IsZero() {
+		// The response carries no explicit expiration time. The heuristic freshness lifetime calculated in
+		// that case from the Last-Modified header (up to 24 hours) is not made use of: the configured default
+		// ttl is the only lifetime such a response may get, and a default ttl of zero disables caching of it.
+		// An Expires header, which is not a valid date, means "already expired" (RFC 7234, section 5.3)
 		if rt.DefaultCacheTTL <= 0 || len(resp.Header.Get("Expires")) != 0 {
 			return
 		}
